@@ -47,6 +47,13 @@ pub static mut INLINE: bool = false;
 pub static mut THREAD_PRE: Option<fn()> = None;
 pub static mut THREAD_POST: Option<fn()> = None;
 pub static mut TASK_HOOK: Option<fn(Pin<&mut dyn Future<Output = ()>>)> = None;
+/// Driver protocol (preferred over TASK_HOOK): `tokio::spawn<F>` polls its own, statically typed,
+/// stack-pinned future; before each poll it asks `TASK_DRIVER(step, done)` - which performs the
+/// harness's in-between actions - whether to poll again (true) or to return (false). No `dyn
+/// Future` is involved: with two spawned async blocks in the program a `dyn` poll makes CBMC
+/// explore BOTH bodies on the same state (observed: the live task's receive loop unwound to the
+/// global bound).
+pub static mut TASK_DRIVER: Option<fn(u32, bool) -> bool> = None;
 pub fn set_inline(b: bool) {
     unsafe { INLINE = b }
 }
@@ -72,6 +79,7 @@ pub fn reset() {
         THREAD_PRE = None;
         THREAD_POST = None;
         TASK_HOOK = None;
+        TASK_DRIVER = None;
     }
 }
 
@@ -202,7 +210,9 @@ pub fn poll_once<F: Future>(f: Pin<&mut F>) -> Option<F::Output> {
 /// propagation (probe px_future: a captured constant loop bound unwound to the global bound,
 /// stack-pinned: exactly), and `Store::read` is an `async fn` whose whole body is such a future.
 pub fn block_on_ready<F: Future>(f: F) -> F::Output {
-    let mut f = core::pin::pin!(f);
+    let mut f = f;
+    // SAFETY: pinned in place, never moved again (a `pin!` move of a large generator is a memcpy)
+    let mut f = unsafe { Pin::new_unchecked(&mut f) };
     let mut n = 0;
     loop {
         if let Some(v) = poll_once(f.as_mut()) {
